@@ -13,27 +13,6 @@ Lib/Sweep.vos Lib/Sweep.vok Lib/Sweep.required_vos: Lib/Sweep.v
 Lib/Digest.vo Lib/Digest.glob Lib/Digest.v.beautified Lib/Digest.required_vo: Lib/Digest.v Lib/U63Ops.vo
 Lib/Digest.vio: Lib/Digest.v Lib/U63Ops.vio
 Lib/Digest.vos Lib/Digest.vok Lib/Digest.required_vos: Lib/Digest.v Lib/U63Ops.vos
-Lib/ZList.vo Lib/ZList.glob Lib/ZList.v.beautified Lib/ZList.required_vo: Lib/ZList.v 
-Lib/ZList.vio: Lib/ZList.v 
-Lib/ZList.vos Lib/ZList.vok Lib/ZList.required_vos: Lib/ZList.v 
 Props/MapProps.vo Props/MapProps.glob Props/MapProps.v.beautified Props/MapProps.required_vo: Props/MapProps.v Lib/U63Ops.vo Lib/Sweep.vo
 Props/MapProps.vio: Props/MapProps.v Lib/U63Ops.vio Lib/Sweep.vio
 Props/MapProps.vos Props/MapProps.vok Props/MapProps.required_vos: Props/MapProps.v Lib/U63Ops.vos Lib/Sweep.vos
-Props/ColorProps.vo Props/ColorProps.glob Props/ColorProps.v.beautified Props/ColorProps.required_vo: Props/ColorProps.v Lib/U63Ops.vo Lib/Sweep.vo
-Props/ColorProps.vio: Props/ColorProps.v Lib/U63Ops.vio Lib/Sweep.vio
-Props/ColorProps.vos Props/ColorProps.vok Props/ColorProps.required_vos: Props/ColorProps.v Lib/U63Ops.vos Lib/Sweep.vos
-Spec/HeaderSpec.vo Spec/HeaderSpec.glob Spec/HeaderSpec.v.beautified Spec/HeaderSpec.required_vo: Spec/HeaderSpec.v 
-Spec/HeaderSpec.vio: Spec/HeaderSpec.v 
-Spec/HeaderSpec.vos Spec/HeaderSpec.vok Spec/HeaderSpec.required_vos: Spec/HeaderSpec.v 
-Model/Layout.vo Model/Layout.glob Model/Layout.v.beautified Model/Layout.required_vo: Model/Layout.v Lib/ZList.vo
-Model/Layout.vio: Model/Layout.v Lib/ZList.vio
-Model/Layout.vos Model/Layout.vok Model/Layout.required_vos: Model/Layout.v Lib/ZList.vos
-Model/Header.vo Model/Header.glob Model/Header.v.beautified Model/Header.required_vo: Model/Header.v Lib/ZList.vo Spec/HeaderSpec.vo Model/Layout.vo
-Model/Header.vio: Model/Header.v Lib/ZList.vio Spec/HeaderSpec.vio Model/Layout.vio
-Model/Header.vos Model/Header.vok Model/Header.required_vos: Model/Header.v Lib/ZList.vos Spec/HeaderSpec.vos Model/Layout.vos
-Props/LayoutProps.vo Props/LayoutProps.glob Props/LayoutProps.v.beautified Props/LayoutProps.required_vo: Props/LayoutProps.v Lib/ZList.vo Model/Layout.vo
-Props/LayoutProps.vio: Props/LayoutProps.v Lib/ZList.vio Model/Layout.vio
-Props/LayoutProps.vos Props/LayoutProps.vok Props/LayoutProps.required_vos: Props/LayoutProps.v Lib/ZList.vos Model/Layout.vos
-Props/HeaderProps.vo Props/HeaderProps.glob Props/HeaderProps.v.beautified Props/HeaderProps.required_vo: Props/HeaderProps.v Lib/ZList.vo Spec/HeaderSpec.vo Model/Layout.vo Model/Header.vo Props/LayoutProps.vo
-Props/HeaderProps.vio: Props/HeaderProps.v Lib/ZList.vio Spec/HeaderSpec.vio Model/Layout.vio Model/Header.vio Props/LayoutProps.vio
-Props/HeaderProps.vos Props/HeaderProps.vok Props/HeaderProps.required_vos: Props/HeaderProps.v Lib/ZList.vos Spec/HeaderSpec.vos Model/Layout.vos Model/Header.vos Props/LayoutProps.vos
